@@ -565,8 +565,9 @@ CodegenResult Theo::gen(Theo::AST in) {
       .backpatching_todo = {},
       .fs =
           {
-              .name = "#root_file_context",
-              .line = 0,
+              // placeholder position until the first visible source line
+              .name = "-",
+              .line = -1,
           },
   };
 
